@@ -413,7 +413,21 @@ Proof.
   rewrite E in A, B. cbn [of_rres_cut] in A, B. rewrite A, B. reflexivity.
 Qed.
 
+(** C16 over the translated general path: with -e RE (a regex of the modelled family) and any of
+    -t -p -g -s -m --json -j -r, format text and fallbacks, the translated [cut_str] - every stage of it, with
+    the translated regex trimmer, compressor and splitter it calls - does what the model's [cut_str] does:
+    succeeds with exactly that output, fails exactly there (in particular -p or -j without -r), and panics
+    nowhere else *)
+Theorem tie_C16_general_path : forall (o : opt) (r : re) (line0 : bytes) (fields0 : list (Z * Z)) (buf0 : list byte),
+  o_regex o = Some (RxRe r) -> o_btype o <> BChars -> Forall item_nz (items (o_bounds o)) ->
+  (forall nd, o_replace o = Some nd ->
+     Z.of_nat (length (rline2 o r (rline1 o r line0))) + Z.of_nat (length nd) <= usize_max) ->
+  Z.of_nat (length (rfields o r (rline1 o r line0))) <= i32_max ->
+  of_rres_cut (cut_str o line0) (gen_cut_str line0 o fields0 buf0 [o_eol o]).
+Proof. exact tie_cut_str_regex. Qed.
+
 Print Assumptions tie_try_into_range_spec.
+Print Assumptions tie_C16_general_path.
 Print Assumptions tie_C01_record_as_a_function_of_its_fields.
 Print Assumptions tie_C10_cut_str_ignores_its_buffers.
 Print Assumptions tie_C16_compress_rewrites_runs.
